@@ -163,3 +163,232 @@ Print Assumptions c05_rto_mode_exit_ack.
 Print Assumptions c05_rto_mode_exit_probe.
 Print Assumptions c05_slow_start_bound_partial.
 Print Assumptions c05_zero_window_new_payload_refuted.
+
+(* ================================================================================================
+   Step-level and trace-level theorems (Conn/C05_Step.v): the step predicates of Conn/C05_Pred.v and
+   Conn/C05_Pred3.v hold of EVERY step of the model from a state satisfying proved invariants, and of
+   every trace from vsock_new.
+   Invariants: ti (Conn/VSock_LemmasTimers), sp (Conn/C05_Segs: every segment holds at least one byte,
+   mss >= 1, snd_una is a u16; kept by every event after which the trace goes on), optc (the options are
+   those of the configuration); each holds of vsock_new and is kept by the events of a trace. *)
+From Utp Require Import Wire.Header Conn.C06_Pred Conn.C0506_Pred2 Conn.C05_Pred3 Conn.VSock_Lemmas
+  Conn.VSock_LemmasTimers Conn.C05_Segs Conn.C05_Step.
+
+(* ---- (c) single-segment mode: c05_rto_single_ok after EVERY event ---- *)
+Theorem c05_rto_single_ok_every_step : forall (CC : Type) (cci : cc_iface CC) (cfg : vconfig) (s : vsock CC) (o : vop),
+  ti s -> c05_rto_single_ok cfg (VSock_Lemmas.fstep_of cci s o) = true.
+Proof. exact @c05_rto_single_ok_step. Qed.
+
+Theorem c05_rto_single_ok_every_trace : forall (CC : Type) (cci : cc_iface CC) (cfg : vconfig)
+    (mk : Z -> Z -> CC) (c : vconfig) (s0 : vsock CC) (ops : list vop),
+  vsock_new cci mk c = Some s0 -> forallb (c05_rto_single_ok cfg) (ftrace cci s0 ops) = true.
+Proof. exact @c05_rto_single_ok_trace. Qed.
+
+(* ---- (c) leaving single-segment mode: c05_rto_exit_ok is FALSE of the model (boundary B6 when the peer's
+   payloads have raised min_ss to max_ss: max_ss is not lowered by the expired probe) ---- *)
+Theorem c05_rto_exit_ok_b6_refuted :
+  exists w cfg ops,
+    vconfig_ok cfg = true /\ Forall op_msg_ok ops /\
+    forallb (c05_rto_exit_ok cfg) (wtrace w cfg ops) = false /\
+    existsb (c05_rto_exit_b6_class cfg) (wtrace w cfg ops) = true /\
+    forallb (fun st => c05_rto_exit_ok cfg st || c05_rto_exit_b6_class cfg st) (wtrace w cfg ops) = true /\
+    forallb (c05_rto_exit_ok2 cfg) (wtrace w cfg ops) = true /\
+    forallb (c05_rto_single_ok cfg) (wtrace w cfg ops) = true /\
+    match rev (wtrace w cfg ops) with
+    | st :: _ => f_rto_retx (fs_pre st) = 1 /\ f_rto_retx (fs_post st) = 0 /\
+                 f_max_ss (fs_post st) = f_max_ss (fs_pre st) /\
+                 f_snd_una (fs_post st) = f_snd_una (fs_pre st) /\
+                 match fs_result st with
+                 | FrPoll PollPending pkts _ _ => length (filter fq_is_data pkts) = 2%nat
+                 | _ => False
+                 end
+    | [] => False
+    end.
+Proof. exact rto_exit_ok_b6_refuted. Qed.
+
+(* ---- (b) zero window: c05_zero_window_ok is FALSE of a poll that ends with the connection closed
+   (the receive loop stopped early, the restart after EMSGSIZE processed the window update after the send);
+   it holds of every poll that ends open ---- *)
+Theorem c05_zero_window_ok_closed_refuted :
+  exists w cfg ops,
+    vconfig_ok cfg = true /\ Forall op_msg_ok ops /\
+    forallb (c05_zero_window_ok cfg) (wtrace w cfg ops) = false /\
+    forallb (c05_zero_window_ok_open cfg) (wtrace w cfg ops) = true /\
+    forallb (fun st => c05_zero_window_ok cfg st || negb (post_open cfg st)) (wtrace w cfg ops) = true /\
+    match rev (wtrace w cfg ops) with
+    | st :: _ => f_last_remote_window (fs_post st) = 0 /\ f_rto_retx (fs_post st) = 0 /\
+                 f_state (fs_post st) = LastAck 101 1 /\
+                 match fs_result st with
+                 | FrPoll PollPending pkts _ _ =>
+                     map (fun q => (ch_seq (fq_hdr q), fq_plen q)) (filter fq_is_data pkts) = [(101, 528)]
+                 | _ => False
+                 end
+    | [] => False
+    end.
+Proof. exact zero_window_ok_closed_refuted. Qed.
+
+Theorem c05_zero_window_ok_open_every_step : forall (CC : Type) (cci : cc_iface CC) (cfg : vconfig) (s : vsock CC) (o : vop),
+  ti s -> sp s -> optc cfg s -> c05_zero_window_ok_open cfg (VSock_Lemmas.fstep_of cci s o) = true.
+Proof. exact @c05_zero_window_ok_open_step. Qed.
+
+Theorem c05_zero_window_ok_open_every_trace : forall (CC : Type) (cci : cc_iface CC)
+    (mk : Z -> Z -> CC) (c : vconfig) (s0 : vsock CC) (ops : list vop),
+  0 <= vc_isn c < M16 -> vsock_new cci mk c = Some s0 ->
+  forallb (c05_zero_window_ok_open c) (ftrace cci s0 ops) = true.
+Proof. exact @c05_zero_window_ok_open_trace. Qed.
+
+(* (b) at full strength outside the known class D16, for the polls that end open *)
+Theorem c05_zero_window_strict_or_d16_open_every_step : forall (CC : Type) (cci : cc_iface CC) (cfg : vconfig)
+    (s : vsock CC) (o : vop),
+  ti s -> sp s -> optc cfg s -> c05_zero_window_strict_or_d16_open cfg (VSock_Lemmas.fstep_of cci s o) = true.
+Proof. exact @c05_zero_window_strict_or_d16_open_step. Qed.
+
+Theorem c05_zero_window_strict_or_d16_open_every_trace : forall (CC : Type) (cci : cc_iface CC)
+    (mk : Z -> Z -> CC) (c : vconfig) (s0 : vsock CC) (ops : list vop),
+  0 <= vc_isn c < M16 -> vsock_new cci mk c = Some s0 ->
+  forallb (c05_zero_window_strict_or_d16_open c) (ftrace cci s0 ops) = true.
+Proof. exact @c05_zero_window_strict_or_d16_open_trace. Qed.
+
+(* ---- (a) the window clause, as intended (c05_window_ok2: the whole list of ST_DATA of the poll) and as
+   written (c05_window_ok sums the datagrams AFTER the first), under the guards c05_win_guard ---- *)
+Theorem c05_window_ok2_every_step : forall (CC : Type) (cci : cc_iface CC) (cfg : vconfig) (s : vsock CC) (o : vop),
+  ti s -> sp s -> optc cfg s ->
+  c05_window_ok2 cfg (VSock_Lemmas.fstep_of cci s o) = true /\
+  c05_window_ok_g cfg (VSock_Lemmas.fstep_of cci s o) = true.
+Proof. exact @c05_window_ok2_step. Qed.
+
+Theorem c05_window_ok2_every_trace : forall (CC : Type) (cci : cc_iface CC)
+    (mk : Z -> Z -> CC) (c : vconfig) (s0 : vsock CC) (ops : list vop),
+  0 <= vc_isn c < M16 -> vsock_new cci mk c = Some s0 ->
+  forallb (c05_window_ok2 c) (ftrace cci s0 ops) = true.
+Proof. exact @c05_window_ok2_trace. Qed.
+
+Theorem c05_window_ok_g_every_trace : forall (CC : Type) (cci : cc_iface CC)
+    (mk : Z -> Z -> CC) (c : vconfig) (s0 : vsock CC) (ops : list vop),
+  0 <= vc_isn c < M16 -> vsock_new cci mk c = Some s0 ->
+  forallb (c05_window_ok_g c) (ftrace cci s0 ops) = true.
+Proof. exact @c05_window_ok_g_trace. Qed.
+
+(* ---- the invariants ---- *)
+Theorem c05_sp_initial : forall (CC : Type) (cci : cc_iface CC) (mk : Z -> Z -> CC) (c : vconfig) (s : vsock CC),
+  0 <= vc_isn c < M16 -> vsock_new cci mk c = Some s -> sp s.
+Proof. exact @sp_vsock_new. Qed.
+
+Theorem c05_sp_invariant : forall (CC : Type) (cci : cc_iface CC) (s : vsock CC) (o : vop),
+  sp s -> poll_finished (VSock_LemmasStep.vstep_out cci s o) = false -> sp (vstep_state cci s o).
+Proof. exact @sp_vstep_live. Qed.
+
+(* ---- the guards are met by reachable steps ---- *)
+Theorem c05_win_guard_nonvacuous :
+  exists w cfg ops,
+    vconfig_ok cfg = true /\ Forall op_msg_ok ops /\
+    existsb (fun st => c05_win_guard cfg st &&
+                       match fs_result st with
+                       | FrPoll PollPending pkts _ _ => (2 <=? Z.of_nat (length (filter fq_is_data pkts)))
+                       | _ => false
+                       end) (wtrace w cfg ops) = true /\
+    forallb (c05_window_ok2 cfg) (wtrace w cfg ops) = true /\
+    forallb (c05_window_ok_g cfg) (wtrace w cfg ops) = true.
+Proof. exact win_guard_nonvacuous. Qed.
+
+Theorem c05_zero_window_open_nonvacuous :
+  exists w cfg ops,
+    vconfig_ok cfg = true /\ Forall op_msg_ok ops /\
+    existsb (fun st => post_open cfg st && (f_last_remote_window (fs_post st) =? 0) &&
+                       match fs_result st with FrPoll PollPending _ _ _ => true | _ => false end)
+            (wtrace w cfg ops) = true /\
+    existsb (c05_d16_class2 cfg) (wtrace w cfg ops) = true /\
+    forallb (c05_zero_window_ok_open cfg) (wtrace w cfg ops) = true /\
+    forallb (c05_zero_window_strict_or_d16_open cfg) (wtrace w cfg ops) = true.
+Proof. exact zero_window_open_nonvacuous. Qed.
+
+Theorem c05_rto_single_nonvacuous :
+  exists w cfg ops,
+    vconfig_ok cfg = true /\ Forall op_msg_ok ops /\
+    existsb (fun st => (0 <? f_rto_retx (fs_post st)) &&
+                       match fs_result st with
+                       | FrPoll PollPending pkts _ _ => Z.of_nat (length (filter fq_is_data pkts)) =? 1
+                       | _ => false
+                       end) (wtrace w cfg ops) = true /\
+    forallb (c05_rto_single_ok cfg) (wtrace w cfg ops) = true.
+Proof. exact rto_single_nonvacuous. Qed.
+
+Print Assumptions c05_rto_single_ok_every_step.
+Print Assumptions c05_rto_single_ok_every_trace.
+Print Assumptions c05_rto_exit_ok_b6_refuted.
+Print Assumptions c05_zero_window_ok_closed_refuted.
+Print Assumptions c05_zero_window_ok_open_every_step.
+Print Assumptions c05_zero_window_ok_open_every_trace.
+Print Assumptions c05_zero_window_strict_or_d16_open_every_step.
+Print Assumptions c05_zero_window_strict_or_d16_open_every_trace.
+Print Assumptions c05_window_ok2_every_step.
+Print Assumptions c05_window_ok2_every_trace.
+Print Assumptions c05_window_ok_g_every_trace.
+Print Assumptions c05_sp_initial.
+Print Assumptions c05_sp_invariant.
+Print Assumptions c05_win_guard_nonvacuous.
+Print Assumptions c05_zero_window_open_nonvacuous.
+Print Assumptions c05_rto_single_nonvacuous.
+
+(* ---- (c) leaving single-segment mode, restated (c05_rto_exit_ok2): the counter goes from positive to zero
+   in a Pending poll only if bytes were removed from the table, or a segment of the table as it was became
+   delivered, or the expired MTU probe (as the state before the poll shows it) was popped.
+   optm: the probe retransmission limit is that of the configuration (an invariant). ---- *)
+Theorem c05_rto_exit_ok2_every_step : forall (CC : Type) (cci : cc_iface CC) (cfg : vconfig) (s : vsock CC) (o : vop),
+  ti s -> sp s -> optm cfg s -> c05_rto_exit_ok2 cfg (VSock_Lemmas.fstep_of cci s o) = true.
+Proof. exact @c05_rto_exit_ok2_step. Qed.
+
+Theorem c05_rto_exit_ok2_every_trace : forall (CC : Type) (cci : cc_iface CC)
+    (mk : Z -> Z -> CC) (c : vconfig) (s0 : vsock CC) (ops : list vop),
+  0 <= vc_isn c < M16 -> vsock_new cci mk c = Some s0 ->
+  forallb (c05_rto_exit_ok2 c) (ftrace cci s0 ops) = true.
+Proof. exact @c05_rto_exit_ok2_trace. Qed.
+
+Theorem c05_rto_exit_nonvacuous :
+  exists w cfg ops,
+    vconfig_ok cfg = true /\ Forall op_msg_ok ops /\
+    existsb (fun st => (0 <? f_rto_retx (fs_pre st)) && (f_rto_retx (fs_post st) =? 0) &&
+                       (f_seg_removed (fs_pre st) <? f_seg_removed (fs_post st)) &&
+                       match fs_result st with FrPoll PollPending _ _ _ => true | _ => false end)
+            (wtrace w cfg ops) = true /\
+    forallb (c05_rto_exit_ok2 cfg) (wtrace w cfg ops) = true /\
+    forallb (c05_rto_exit_ok cfg) (wtrace w cfg ops) = true.
+Proof. exact rto_exit_nonvacuous. Qed.
+
+(* ---- the monitored preconditions: the part that is an invariant (segment sizes, counter, mss);
+   c05_monitor_ok itself is PARTIAL: its never-sent-suffix clause is not proved (it needs
+   last_sent_seq_nr to lie within the table, which a peer acknowledging unsent data can break) ---- *)
+Theorem c05_monitor_core_ok_every_step_partial : forall (CC : Type) (cci : cc_iface CC) (cfg : vconfig)
+    (s : vsock CC) (o : vop),
+  ti s -> sp s -> c05_monitor_core_ok cfg (VSock_Lemmas.fstep_of cci s o) = true.
+Proof. exact @c05_monitor_core_ok_step. Qed.
+
+Theorem c05_monitor_core_ok_every_trace_partial : forall (CC : Type) (cci : cc_iface CC) (cfg : vconfig)
+    (mk : Z -> Z -> CC) (c : vconfig) (s0 : vsock CC) (ops : list vop),
+  0 <= vc_isn c < M16 -> vsock_new cci mk c = Some s0 ->
+  forallb (c05_monitor_core_ok cfg) (ftrace cci s0 ops) = true.
+Proof. exact @c05_monitor_core_ok_trace. Qed.
+
+Print Assumptions c05_rto_exit_ok2_every_step.
+Print Assumptions c05_rto_exit_ok2_every_trace.
+Print Assumptions c05_rto_exit_nonvacuous.
+Print Assumptions c05_monitor_core_ok_every_step_partial.
+Print Assumptions c05_monitor_core_ok_every_trace_partial.
+
+(* ---- (d) slow start, PARTIAL: the assumption about the abstract congestion controller (cc_ss_ok: an
+   invariant that bounds the window by two segments plus the acknowledged bytes plus one byte per ACK, kept by
+   set_mss / set_remote_window / on_ack) and what it gives for every sequence of those calls; the
+   connection-level clause c05_slow_start_ok is not proved (Conn/C05_SlowStart.v says what is missing) ---- *)
+From Utp Require Import Conn.C05_SlowStart.
+
+Theorem c05_slow_start_window_bound_partial : forall (CC : Type) (cci : cc_iface CC) (mk : Z -> Z -> CC),
+  cc_ss_ok cci mk ->
+  forall now m ops c, 1 <= m -> ss_ops_ok ops -> ss_run cci (mk now m) ops = Some c ->
+  cc_window cci c <= 2 * ss_mss_hi m ops + ss_bytes ops + ss_acks ops.
+Proof. exact @ss_window_bound. Qed.
+
+Theorem c05_slow_start_hypothesis_satisfiable : cc_ss_ok ideal_ss (fun _ m => (m, 0)).
+Proof. exact ideal_ss_ok. Qed.
+
+Print Assumptions c05_slow_start_window_bound_partial.
+Print Assumptions c05_slow_start_hypothesis_satisfiable.
